@@ -8,6 +8,8 @@ import (
 	"github.com/pkg/errors"
 )
 
+var errChannelFull = errors.New("Channel full")
+
 type MessageChannel struct {
 	Channel chan wire.Message
 	lock    sync.Mutex
@@ -24,6 +26,23 @@ func (c *MessageChannel) Add(msg wire.Message) error {
 
 	c.Channel <- msg
 	return nil
+}
+
+// AddNoWait adds the message to the channel if there is room for it. It never blocks.
+func (c *MessageChannel) AddNoWait(msg wire.Message) error {
+	c.lock.Lock()
+	defer c.lock.Unlock()
+
+	if !c.open {
+		return errors.New("Channel closed")
+	}
+
+	select {
+	case c.Channel <- msg:
+		return nil
+	default:
+		return errChannelFull
+	}
 }
 
 func (c *MessageChannel) Open(count int) error {
